@@ -14,17 +14,19 @@ import Tickit.Proof.Sgr
   The xterm driver's `start` leaves the terminal in ground state with default attributes (`start_resets`), which is where
   `runOps … {}` starts.
 
-  Four defects of the unchanged tree make the unrestricted statements false; for each the full statement is kept as a
-  `def … : Prop`, refuted by a concrete witness, and proved under the hypothesis that excludes exactly the trigger:
-    * `int params[16]` is too small (`params_fit`, `requests_total`);
-    * underline style ≥ 2 without `:` sub-parameters is sent as `4;2` / `4;3` (`PenOk.under`);
-    * `TICKIT_PEN_SIZEPOS_SMALL` has no encoding (`PenOk.sizepos`);
-    * a colour beyond the palette is compared unconverted, so an unchanged pen is sent again (`InPalette` in `noop_silent`).
+  History.  Four defects were found on the original tree.  Three are repaired in /repo and the model mirrors the repaired
+  code: `int params[16]` (now 20; `params_fit` is stated for every capacity), underline style 2 without `:` sub-parameters
+  sent as `4;2` = underline + faint (now SGR 21), a colour beyond the palette compared unconverted and therefore sent again
+  by every request (now compared after conversion: `noop_silent` has no palette hypothesis any more).  Their probes stay in
+  `corpus/C10/` as regressions.  Two things remain false of the code and of the model, are kept as the full statement
+  `sgr_inv_full`, refuted by kernel-checked witnesses, and excluded from `sgr_inv` by `PenOk`:
+    * an underline style ≥ 3 (curly) on a terminal without `:` sub-parameters has no encoding and is drawn single (`PenOk.under`);
+    * `TICKIT_PEN_SIZEPOS_SMALL` has no encoding (`PenOk.sizepos`).
 -/
 namespace Tickit.Props.C10
 open Tickit Tickit.TermPen Tickit.Sgr Tickit.Proof.Sgr
 
-/-- What a pen must satisfy for the xterm encoding to say what the pen says (`Proof.Sgr.DeltaOk`): underline style ≥ 2 only
+/-- What a pen must satisfy for the xterm encoding to say what the pen says (`Proof.Sgr.DeltaOk`): underline style ≥ 3 only
     with `:` sub-parameters, size/position one of normal, superscript, subscript. -/
 abbrev PenOk := DeltaOk
 
@@ -36,9 +38,9 @@ def PenInRange (p : Pen) : Prop :=
   (∀ v, p.sizepos = some v → 0 ≤ v ∧ v ≤ 3)
 
 /-- `PenOk` excludes exactly the two triggers: a pen with values in range is `PenOk` unless it asks for an underline
-    style ≥ 2 on a terminal without `:` sub-parameters or for `TICKIT_PEN_SIZEPOS_SMALL`. -/
+    style ≥ 3 on a terminal without `:` sub-parameters or for `TICKIT_PEN_SIZEPOS_SMALL`. -/
 theorem penOk_of_inRange (caps : Caps) (p : Pen) (hr : PenInRange p)
-    (hu : caps.colon = true ∨ ∀ v, p.under = some v → v ≤ 1)
+    (hu : caps.colon = true ∨ ∀ v, p.under = some v → v ≤ 2)
     (hs : p.sizepos ≠ some Tickit.Gen.Sgr.sizeposSmall) : PenOk caps p := by
   obtain ⟨_, hunder, _, hsize⟩ := hr
   constructor
@@ -132,12 +134,12 @@ def sgr_inv_full : Prop :=
   ∀ (cfg : Cfg) (ops : List Op) (st : TState), 8 ≤ cfg.colors → (∀ op ∈ ops, PenInRange op.pen) →
     runOps cfg ops {} = some st → st.vt.attrs = expected cfg (logical ops)
 
-/-- Double underline on a terminal without `:` sub-parameters: the driver sends `CSI 4;2 m`, the terminal underlines once
-    and switches faint on. -/
+/-- Curly underline on a terminal without `:` sub-parameters: there is no way to say it, the driver sends `CSI 4 m` and the
+    terminal underlines once. -/
 theorem sgr_inv_counterexample_under : ¬ sgr_inv_full := by
   intro h
-  have := h { colors := 256, caps := ⟨false, false⟩, cap := 16 } [.ch { under := some 2 }]
-    { cache := { under := some 2 }, vt := { attrs := { under := 1, faint := true } } } (by decide)
+  have := h { colors := 256, caps := ⟨false, false⟩, cap := 20 } [.ch { under := some 3 }]
+    { cache := { under := some 3 }, vt := { attrs := { under := 1 } } } (by decide)
     (by
       intro op hop
       simp only [List.mem_cons, List.not_mem_nil, or_false] at hop
@@ -149,6 +151,13 @@ theorem sgr_inv_counterexample_under : ¬ sgr_inv_full := by
       · intro v hv; cases hv)
     (by decide +kernel)
   exact absurd this (by decide +kernel)
+
+/-- Regression for the repaired `4;2`: double underline without `:` sub-parameters is sent as `CSI 21 m` and read back as
+    double, nothing else switched on. -/
+theorem under_double_without_colon :
+    ∃ st, runOps { colors := 256, caps := ⟨false, false⟩, cap := 20 } [.ch { under := some 2 }] {} = some st ∧
+      st.vt.attrs = { under := 2 } :=
+  ⟨{ cache := { under := some 2 }, vt := { attrs := { under := 2 } } }, by decide +kernel, by decide +kernel⟩
 
 /-- `TICKIT_PEN_SIZEPOS_SMALL` after superscript: nothing is sent, the terminal stays in superscript. -/
 theorem sgr_inv_counterexample_small : ¬ sgr_inv_full := by
@@ -235,40 +244,25 @@ example : ∃ st', step cfgEx { cache := { bold := some true }, vt := { attrs :=
 
 /-! ### no-op -/
 
-/-- **noop_silent.** A request that leaves the logical pen unchanged, and names no colour beyond the palette, emits no byte. -/
+/-- **noop_silent.** A request that leaves the logical pen unchanged emits no byte — whatever the palette. -/
 theorem noop_silent (cfg : Cfg) (ops : List Op) (op : Op) (st : TState) (h8 : 8 ≤ cfg.colors)
-    (hp : InPalette cfg.colors op.pen) (h : runOps cfg ops {} = some st)
+    (h : runOps cfg ops {} = some st)
     (hnoop : logicalStep (logical ops) op = logical ops) : emit cfg st.cache op = .bytes [] := by
   have hc := runOps_cache cfg h8 ops {} st {} rfl h
   have hl : st.cache = convPen cfg.colors (logical ops) := hc
   unfold emit
-  rw [hl, termDelta_noop cfg.colors h8 (logical ops) op hp hnoop]
+  rw [hl, termDelta_noop cfg.colors h8 (logical ops) op hnoop]
   exact xtermChpen_empty _ _ _
 
-example : logicalStep (logical opsEx) (.ch { bg := some ⟨12, none⟩, sizepos := some 2 }) = logical opsEx ∧
-    InPalette cfgEx.colors ({ bg := some ⟨12, none⟩, sizepos := some 2 } : Pen) := by
-  refine ⟨by decide +kernel, ?_, ?_⟩ <;> intro c hc <;> cases hc <;> decide
+example : logicalStep (logical opsEx) (.ch { bg := some ⟨12, none⟩, sizepos := some 2 }) = logical opsEx := by decide +kernel
 
-/-- The full statement: "no bytes are emitted when nothing changes". -/
-def noop_silent_full : Prop :=
-  ∀ (cfg : Cfg) (ops : List Op) (op : Op) (st : TState), 8 ≤ cfg.colors → (∀ o ∈ op :: ops, PenInRange o.pen) →
-    runOps cfg ops {} = some st → logicalStep (logical ops) op = logical ops → emit cfg st.cache op = .bytes []
-
-/-- On an 8-colour terminal `setpen fg=200` twice: the second request compares the cached, converted index 5 with 200 and
-    sends `CSI 35 m` again. -/
-theorem noop_silent_counterexample : ¬ noop_silent_full := by
-  intro h
-  have := h { colors := 8, caps := ⟨false, false⟩, cap := 16 } [.set { fg := some ⟨200, none⟩ }] (.set { fg := some ⟨200, none⟩ })
-    { cache := total { fg := some ⟨5, none⟩ }, vt := { attrs := { fg := .idx 5 } } } (by decide)
-    (by
-      intro o ho
-      simp only [List.mem_cons, List.not_mem_nil, or_false] at ho
-      rcases ho with ho | ho <;> subst ho <;> refine ⟨?_, ?_, ?_, ?_⟩
-      all_goals first
-        | (intro c hc; rcases hc with hc | hc <;> cases hc; decide)
-        | (intro v hv; cases hv))
-    (by decide +kernel) (by decide +kernel)
-  exact absurd this (by decide +kernel)
+/-- Regression for the repaired re-emission: on an 8-colour terminal `setpen fg=200` twice — the second request is silent. -/
+theorem noop_beyond_palette :
+    ∃ st, runOps { colors := 8, caps := ⟨false, false⟩, cap := 20 } [.set { fg := some ⟨200, none⟩ }] {} = some st ∧
+      st.cache.fg = some ⟨5, none⟩ ∧
+      emit { colors := 8, caps := ⟨false, false⟩, cap := 20 } st.cache (.set { fg := some ⟨200, none⟩ }) = .bytes [] :=
+  ⟨{ cache := total { fg := some ⟨5, none⟩ }, vt := { attrs := { fg := .idx 5 } } },
+    by decide +kernel, by decide +kernel, by decide +kernel⟩
 
 /-! ### RGB only when supported -/
 
